@@ -33,6 +33,8 @@ func init() {
 		"(*sync.WaitGroup).Done":   func(fr *frame, a []Value) Value { fr.th.wgAdd(a[0].(*Value), -1); return nil },
 		"(*sync.WaitGroup).Wait":   func(fr *frame, a []Value) Value { fr.th.wgWait(a[0].(*Value)); return nil },
 		"(*sync.Once).Do":          func(fr *frame, a []Value) Value { fr.th.onceDo(a[0].(*Value), a[1]); return nil },
+		"(*sync.Pool).Get":         syncPoolGet,
+		"(*sync.Pool).Put":         syncPoolPut,
 		"sync/atomic.LoadInt64":    atomicLoad,
 		"sync/atomic.LoadUint64":   atomicLoad,
 		"sync/atomic.LoadInt32":    atomicLoad,
@@ -681,4 +683,57 @@ func base64EncodeToString(fr *frame, a []Value) Value {
 		return Str{}
 	}
 	return out
+}
+
+// sync.Pool: a per-pool stack. Get returns what was Put last (that is what a single P does and the case in
+// which recycled state is visible); an empty pool calls New.
+func syncPoolGet(fr *frame, a []Value) Value {
+	th := fr.th
+	e := th.eng
+	p := a[0].(*Value)
+	th.yield("Pool.Get")
+	if e.pools == nil {
+		e.pools = map[*Value][]Value{}
+	}
+	if st := e.pools[p]; len(st) > 0 {
+		v := st[len(st)-1]
+		e.pools[p] = st[:len(st)-1]
+		if e.race != nil {
+			atomicSync(th, p, true, false)
+		}
+		return v
+	}
+	// the New field: the last field of sync.Pool that holds a func value
+	st := (*p).(Struct)
+	for i := len(st) - 1; i >= 0; i-- {
+		switch f := st[i].(type) {
+		case *ssa.Function:
+			if f != nil {
+				return th.call(nil, 0, f, nil)
+			}
+		case *Closure:
+			if f != nil {
+				return th.call(nil, 0, f, nil)
+			}
+		}
+	}
+	return Iface{}
+}
+
+func syncPoolPut(fr *frame, a []Value) Value {
+	th := fr.th
+	e := th.eng
+	p := a[0].(*Value)
+	th.yield("Pool.Put")
+	if e.pools == nil {
+		e.pools = map[*Value][]Value{}
+	}
+	if iv, ok := a[1].(Iface); ok && iv.t == nil {
+		return nil // Put(nil) is a no-op
+	}
+	if e.race != nil {
+		atomicSync(th, p, false, true)
+	}
+	e.pools[p] = append(e.pools[p], a[1])
+	return nil
 }
